@@ -150,6 +150,9 @@ def generate(seed, tier="quick"):
             request["op"] = clone(requests[0]["op"])
             used = list(dict.fromkeys(k for k, _ in PACKAGE.findall(request["op"]["expr"])))
             request["missing"] = next((k for k in used if k not in request["cer"]["packages"]), None)
+        if index and not sequential and rnd.random() < 0.25:
+            # a concurrent caller that is cancelled while its look-ups are in flight (F3); not observed itself
+            request["fault"] = {"kind": "cancel", "at": rnd.choice([0, 1, 2, 3, 10])}
     world = {"flavour": "cer" if rnd.random() < 0.3 else "sim", "rc_keys": [], "fc_keys": [], "hint_keys": []}
     profile = rnd.choice([p for p in PROFILES if p != "zero"] * 3 + ["zero"])
     return {"property": PROP_ID, "seed": seed, "profile": profile, "world": world, "requests": requests}
@@ -173,7 +176,8 @@ def summarise(scenario):
 # ------------------------------------------------------------------------------------------------------ oracle
 def execute(scenario):
     plans = {}
-    for request in scenario["requests"]:
+    observed = [r for r in scenario["requests"] if not r.get("fault")]
+    for request in observed:
         op = request["op"]
         do_packages, do_time = flags_of(op)
         used = list(dict.fromkeys(k for k, _ in PACKAGE.findall(op["expr"])))
@@ -192,12 +196,12 @@ def execute(scenario):
     except LIVENESS_ERRORS as error:
         return liveness_verdict(error, scenario)
     verdict = base_verdict(sim, scenario)
-    verdict["observed"] = len(scenario["requests"])
-    verdict["completed"] = sum(1 for o in outcomes.values() if "ok" in o)
+    verdict["observed"] = len(observed)
+    verdict["completed"] = sum(1 for r in observed if "ok" in outcomes.get(r["rid"], {}))
     n_lookups = sum(1 for entry in sim.log if entry[2] == "start" and entry[4] == "pkg")
     verdict["probes"]["package_lookups"] = n_lookups
     verdict["probes"]["requests"] = len(scenario["requests"])
-    for request in scenario["requests"]:
+    for request in observed:
         rid, op = request["rid"], request["op"]
         expect_missing, reference, substituted, used, available = plans[rid]
         outcome = strip_msg(outcomes.get(rid, {"missing": True}))
@@ -252,6 +256,10 @@ def shrink(scenario):
         if request.get("start"):
             candidate = clone(scenario)
             candidate["requests"][index]["start"] = 0
+            yield candidate
+        if request.get("fault"):
+            candidate = clone(scenario)
+            del candidate["requests"][index]["fault"]
             yield candidate
         op = request["op"]
         if op.get("ast"):
